@@ -21,6 +21,17 @@ def progress (perFile : List (List K)) : List K := progressFrom perFile.length 0
 /-- `IndentationGroup.append` accepts a curve iff it has a spring constant or a tip position -/
 def accepts (hasSpringConstant hasTipPosition : Bool) : Bool := hasSpringConstant || hasTipPosition
 
+/-- `IndentationGroup.append`: the curve is checked first; a refused curve raises and leaves the group as
+it was -/
+def appendCurve {C : Type} (g : List C) (c : C) (hasSpringConstant hasTipPosition : Bool) : Except Unit (List C) :=
+  if accepts hasSpringConstant hasTipPosition then .ok (g ++ [c]) else .error ()
+
+/-- the group after the call, whether it raised or not -/
+def groupAfter {C : Type} (g : List C) (c : C) (k t : Bool) : List C :=
+  match appendCurve g c k t with
+  | .ok g' => g'
+  | .error _ => g
+
 /-- a curve of a map: pixel, fit state (`none` = no successful fit), rating (`none` = not rated) -/
 structure Curve (K : Type) where
   xi : Nat
